@@ -262,8 +262,9 @@ __wrap_send(int s, const void * buf, size_t len, int flags)
 {
 	size_t n = len;
 
-	(void)s; (void)flags;
+	(void)s;
 	if (opt_sndfail >= 0 && sentlen >= (size_t)opt_sndfail) {
+		hc_epipe(flags);
 		errno = EPIPE;
 		return (-1);
 	}
